@@ -9,7 +9,7 @@ from collections import Counter
 from vlib import core, e2e
 from vlib.props.C08 import model_compare
 
-MODS = ['S4V.Props.C09', 'S4V.Props.FilterSpec', 'S4V.Props.JournalRenderSpec']
+MODS = ['S4V.Props.C09', 'S4V.Props.FilterSpec', 'S4V.Props.JournalRenderSpec', 'S4V.Props.FactsJournal']
 LEVEL_NOTE = ("Proved on the model of JournalReader's iteration with the stop test, the dating source and the field cap regenerated from the source on every run: "
               "without a window every enumerated entry is printed once in journal order; the selection is always an order-preserving sublist; for journals whose receive "
               "times are non-decreasing it is exactly A <= t <= B (inclusive both ends: the exclusive end was a defect repaired by commit a1ebdbb3); the instant is "
